@@ -168,7 +168,9 @@ func action(t *rapid.T, level spec.Level, depth int, defs *[]string) string {
 	case 14:
 		return "{{block \"" + rapid.SampledFrom([]string{"blk", "blk2"}).Draw(t, "blockname") + "\" .}}" + literal(t) + "{{.Version}}{{end}}"
 	case 15: // invalid structure
-		return rapid.SampledFrom([]string{"{{", "}}{{", "{{end}}", "{{else}}", "{{if}}", "{{if .Vector}}", "{{range}}", "{{template \"missing\"}}", "{{define \"a\"}}", "{{ .Vector", "{{.Vector}", "{{\"unterminated}}", "{{break}}", "{{$}}", "{{.Vector}}{{end}}", "{{with}}{{end}}"}).Draw(t, "badstruct")
+		return rapid.SampledFrom([]string{"{{", "}}{{", "{{end}}", "{{else}}", "{{if}}", "{{if .Vector}}", "{{range}}", "{{template \"missing\"}}", "{{define \"a\"}}", "{{ .Vector", "{{.Vector}", "{{\"unterminated}}", "{{break}}", "{{$}}", "{{.Vector}}{{end}}", "{{with}}{{end}}",
+			// calls of templates this text does not define (another export may have defined them)
+			"{{template \"a\" .}}", "{{template \"b\" .Vector}}", "{{template \"row\" .AVName}}", "{{template \"blk\" .}}", "{{template \"x\"}}"}).Draw(t, "badstruct")
 	default:
 		return open + fieldRef(t, level) + cls
 	}
